@@ -41,6 +41,17 @@ PROPS = {
         'level_note': 'Trusted: Coq kernel + vm_compute, harness, verif hook; atomicity of one per-MID critical section rests on sync.Mutex; real 247 s waits replaced by deadline shifting.',
         'explanation': 'Histories of CON/NON requests, duplicates, virtual ageing and ticks on a real udp/client.Conn (in-memory session); observed handler calls and emitted datagrams compared with the model step by step; the property predicate is evaluated on the observed history.',
     },
+    'C06': {
+        'run_vo': 'Retx/Run.vo', 'props_vo': 'Properties/C06.vo', 'level': 'proof', 'confirm': True,
+        'classes': {1: 'too-many-copies', 2: 'copy-not-identical', 3: 'resend-too-early', 4: 'copy-after-stop',
+                    5: 'timely-response-not-returned', 6: 'success-without-response'},
+        'trusted': ['hook udp/client/export_verif.go (pending-entry stamp shifting)',
+                    'in-memory udp/client.Session, barrier request and quiescence window used to wait for woken callers (harness/udpmem.go, c06.go)'],
+        'assumptions': ['x/sync semaphore is FIFO (NSTART admission order)', 'virtual time: pending entries are aged by shifting their stamps, ticks are CheckExpirations(time.Now())'],
+        'level_text': 'Coq theorems (Properties/C06.v) over ALL event histories of the sender model (pending table, NSTART, housekeeping tick, wake by message ID, token continuation, cancellation): copies bounded by 1+MAX_RETRANSMIT, spacing, identity, nothing after ack/reset/cancel/return, success exactly on a timely response. Model tied to the real udp/client.Conn by event-by-event correspondence over an in-memory session.',
+        'level_note': 'Trusted: Coq kernel + vm_compute, harness, verif hook; goroutine wake-ups are observed through a quiescence window (mismatches are re-run once with a 10x window before being reported); real ACK_TIMEOUT waits replaced by stamp shifting.',
+        'explanation': 'Histories of Do calls, ticks at virtual times around k*ACK_TIMEOUT, ACK/RST/piggybacked/separate responses and cancellations on a real udp/client.Conn; emitted datagrams (byte-compared with the first copy) and call results compared with the model step by step; property predicate evaluated on the observed history.',
+    },
 }
 
 NOT_APPLICABLE = {}
